@@ -65,7 +65,10 @@ where
   /// On insert, add the new item to the clock.
   fn on_admit(&self, key: &K, cost: u64) -> AdmissionDecision<K> {
     let mut state = self.state.lock();
-    if !state.items.contains_key(key) {
+    if let Some(existing) = state.items.get_mut(key) {
+      // Overwritten while tracked: keep its place on the clock, record the new cost.
+      existing.cost = cost;
+    } else {
       state.items.insert(
         key.clone(),
         ClockEntry {
